@@ -20,7 +20,10 @@ mod harness {
             if a[i] != 0 { all = false; }
             i += 1;
         }
-        assert!(z == all, "is_zero() must be true exactly for the all-zero array");
+        // two directions, reported separately: (a) the all-zero array IS detected (what C04/C16 rest on),
+        // (b) nothing else is reported as zero (what C01/C15 rest on: valid keys are not refused)
+        assert!(!all || z, "is_zero detects zero: the all-zero array must be reported as zero");
+        assert!(!z || all, "is_zero only zero: a non-zero array must not be reported as zero");
     }
     #[kani::proof] #[kani::unwind(2)] fn is_zero_n0() { check_is_zero::<0>() }
     #[kani::proof] #[kani::unwind(3)] fn is_zero_n1() { check_is_zero::<1>() }
